@@ -60,7 +60,9 @@ func c09SelSpecs() []*bfsSpec {
 		// requests in flight while chokes, answers, rejects and scheduler commands cross
 		{BothMapOrders: true, Name: "c09-sel-requests", Cfg: worldCfg{Geom: "g2x2", Peers: []peerCfg{{Fast: true, Ext: true, DontHave: 7}}, Gates: true},
 			Setup:    []string{"haveall:0", "drain", "unchoke:0", "drain", "want:0:1", "tick", "drain", "gate:0"},
-			Alphabet: []string{"choke:0", "unchoke:0", "ans:0:old:full", "rej:0:old", "pstep:0:2", "pstep:0:3", "pstep:0:4", "pstep:0:6", "ev", "drain", "tick", "ungate:0", "unwant:0:1", "adv:2", "close:0"},
+			// (cmd: a scheduler command lands in the queue of a peer that is busy - here: gated -
+			// and may exit before it reads it)
+			Alphabet: []string{"choke:0", "unchoke:0", "ans:0:old:full", "rej:0:old", "pstep:0:2", "pstep:0:3", "pstep:0:4", "pstep:0:6", "ev", "drain", "tick", "cmd:0:2", "ungate:0", "unwant:0:1", "adv:2", "close:0"},
 			Depth: 5, DepthT: 7},
 		{BothMapOrders: true, Name: "c09-sel-2peers", Cfg: worldCfg{Geom: "g2x2", Peers: []peerCfg{{Fast: true, Ext: true, DontHave: 7}, {}}, EventCap: 2, Gates: true},
 			Setup:    []string{"drain", "bf:1:3", "drain", "have:0:0", "drain", "gate:0"},
